@@ -231,6 +231,8 @@ def run(ctx):
     if info is not None:
         ok, out = ctx.check_generated('C07Machine', TR.HEADER + text, ['machine_translated'])
         machine_ok = ok
+        if ok:                                 # a definitions-only file: nothing to print assumptions of
+            ctx.obligations[-1] = ('machine_translated', True, [])
         ctx.extra['generated_machine'] = {'methods': len(info['methods']), 'classes': {k: {'base': v['base'], 'reads': v['mask'],
                                           'plain_attributes': v['plain']} for k, v in info['classes'].items()}}
     # ---- proofs over the generated machine, in the background
